@@ -142,11 +142,12 @@ func (p *adapterPeer) junk(b []byte)                { p.pipe.Feed(b) }
 func (p *adapterPeer) close()                       { p.tr.Close() }
 
 type natsPeer struct {
-	srv     *brokers.Nats
-	cc, pc  *nats.Conn
-	tr      frugal.FTransport
-	inbox   string
-	subject string
+	srv        *brokers.Nats
+	cc, pc     *nats.Conn
+	tr         frugal.FTransport
+	inbox      string
+	subject    string
+	subjectFor func(opid uint64) uint64 // reply subject (op id suffix) a response frame is published on
 }
 
 var natsSrv *brokers.Nats
@@ -192,8 +193,13 @@ func (f *flushOnOpen) Open() error {
 	return err
 }
 func (p *natsPeer) inject(opid uint64) {
-	// NATS routes by subject, frugal by header: publish on the right subject
-	p.pc.Publish(fmt.Sprintf("%s.%d", p.inbox, opid), wire.OpFrame(opid, []byte("payload")))
+	// NATS routes by subject, frugal by the _opid header (ClientMux!Lookup is by the frame's op id): when the scenario
+	// names another request that is in flight, the frame travels on THAT request's reply subject
+	subj := opid
+	if p.subjectFor != nil {
+		subj = p.subjectFor(opid)
+	}
+	p.pc.Publish(fmt.Sprintf("%s.%d", p.inbox, subj), wire.OpFrame(opid, []byte("payload")))
 	p.pc.Flush()
 }
 func (p *natsPeer) inject503(opid uint64) {
@@ -279,6 +285,17 @@ func replay(variant string, idx int, beh []Step) {
 				return faultio.ErrInjected
 			}
 			return nil
+		}
+	}
+	if np, ok := p.(*natsPeer); ok {
+		// crossed reply subjects: a frame for op id X travels on the subject of another caller that is in flight, if any
+		np.subjectFor = func(id uint64) uint64 {
+			for m := 1; m <= 16; m++ {
+				if c := callers[m]; c != nil && c.opid != id && c.state != "done" {
+					return c.opid
+				}
+			}
+			return id
 		}
 	}
 	ctl.ArmAny("reg.send")
@@ -680,6 +697,22 @@ func session(variant string, rng *rand.Rand, n int) {
 				return faultio.ErrInjected
 			}
 			return nil
+		}
+	}
+	if np, ok := p.(*natsPeer); ok && len(cs) > 1 {
+		// every other response travels on the reply subject of the next caller (the feeder is one goroutine)
+		k := 0
+		np.subjectFor = func(id uint64) uint64 {
+			k++
+			if k%2 == 0 {
+				return id
+			}
+			for i, r := range cs {
+				if r.c.opid == id {
+					return cs[(i+1)%len(cs)].c.opid
+				}
+			}
+			return cs[k%len(cs)].c.opid
 		}
 	}
 	var wg sync.WaitGroup
